@@ -221,12 +221,14 @@ def generate(rng, prop, tier):
         sc['highdim'] = True
         return sc
     if mode == 'steer_sample':
-        sc['tkind'] = rng.choice(['pos', 'pos', 'sq', 'zeros', 'delta', 'sqdiff', 'gauge', 'gauge', 'orthpos'])
+        sc['tkind'] = rng.choice(['pos', 'pos', 'sq', 'zeros', 'delta', 'sqdiff', 'gauge', 'gauge', 'orthpos', 'posscaled', 'posscaled'])
+        sc['prehistory'] = rng.random() < 0.3
         sc['unsert'] = rng.choice([0.0, 0.0, UNSERT])
         if sc['tkind'] in ('sq', 'sqdiff'):
             sc['r'] = rng.randint(1, 2)
     elif mode == 'steer_square':
         sc['tkind'] = rng.choice(['normal', 'normal', 'zeros', 'scaled', 'nearorth', 'nearorth'])
+        sc['prehistory'] = rng.random() < 0.3
     elif mode == 'adversarial':
         sc['fn'] = rng.choice(['sample', 'sample', 'sample_square', 'sample_square_unique', 'sample_square_unique', 'sample_lhs', 'sample_lhs',
                                'sample_rand', 'sample_rand_poi', 'sample_tt', 'sample_tt', 'unique_impossible', 'sample_func'])
@@ -240,6 +242,8 @@ def generate(rng, prop, tier):
             sc['r'] = 1
         sc['rtt'] = rng.randint(1, 3)
         sc['use'] = rng.choice(['simgen', 'simgen', 'int', 'generator'])
+        sc['ntype'] = rng.choice(['list', 'list', 'array', 'farray', 'flist', 'mixed'])     # "list or np.ndarray of int/float"
+        sc['mfloat'] = rng.random() < 0.3                                                  # "m (int, float)"
     else:
         sc['fn'] = rng.choice(['sample', 'sample_square'])
         sc['n'] = gen_shape(rng, 40)
@@ -254,6 +258,12 @@ def build_tensor(sc):
     g = gen(sc['tseed'] + 1)
     if kind == 'pos':
         return make_tt(n, r, sc['tseed'], dist='pos')
+    if kind == 'posscaled':
+        # a non-negative tensor of tiny total mass (e.g. an unnormalised density): absolute noise floors matter here
+        Y = make_tt(n, r, sc['tseed'], dist='pos')
+        k = int(g.integers(0, len(n)))
+        Y[k] = Y[k] * 10.0 ** float(-g.integers(3, 10))
+        return Y
     if kind in ('normal', 'scaled'):
         Y = make_tt(n, r, sc['tseed'], dist='normal')
         if kind == 'scaled':
@@ -347,26 +357,43 @@ def viol(oracle, detail):
 
 def steer(sc, fn):
     """Run the sampler with m = number of entries; sample s is steered through multi-index s.
-    Returns (result rows, per-sample product of recorded conditionals, per-sample step of termination, SimGen)."""
+
+    Whether a path may be entered is decided from the dense reference (truth), never from what the sampler offers: a prefix
+    whose true marginal is zero up to the rounding scale of the contraction is a zero cell; the path stops there (the draw is
+    redirected to the most probable outcome) and the probability the sampler offered for the zero cell is recorded.
+    Returns (Y, multi, result rows, per-path product of conditionals, step of termination, offered mass at termination, rows drawn, SimGen)."""
     n = sc['n']
     d = len(n)
     Y = build_tensor(sc)
+    if sc.get('prehistory'):
+        # the same list / array objects held another tensor during an earlier call (state kept across calls must not leak)
+        Yreal = [G.copy() for G in Y]
+        g = gen(sc['tseed'] + 5)
+        for G in Y:
+            G[...] = np.abs(g.standard_normal(G.shape)) + 0.05 if fn == 'sample' else g.standard_normal(G.shape)
+        if fn == 'sample':
+            teneva.sample(Y, 3, seed=int(sc['pseed'] % 1000))
+        else:
+            teneva.sample_square(Y, 3, unique=False, seed=int(sc['pseed'] % 1000))
+        for G, R in zip(Y, Yreal):
+            G[...] = R
     multi = list(itertools.product(*[range(k) for k in n]))
     N = len(multi)
     prob = np.ones(N)
-    term = [None] * N            # step at which the path met probability zero
+    term = [None] * N            # step at which the path met a zero cell
+    offered = np.zeros(N)        # path probability the sampler offered for that zero cell
     actual = np.zeros((N, d), dtype=int)
     state = {'step': 0, 's': 0}
     T_ = tt_full(Y)
     Tabs_ = tt_full([np.abs(G) for G in Y])
     W_, Wabs_ = (T_, Tabs_) if fn == 'sample' else (T_ * T_, Tabs_ * Tabs_)
     tot_ = max(float(W_.sum()), 1e-300)
-    uns_ = (2 * sc.get('unsert', 0.0) * n[0] / tot_) if fn == 'sample' else 0.0
 
-    def negligible(prefix, pathprob):
-        # a cell whose offered probability is at the rounding-noise level of the contraction (or at the unsert floor)
-        # counts as a zero-probability cell: the path is not entered, the true marginal must vanish (checked by the caller)
-        return pathprob <= 1e-12 + 2 * uns_ + 1e3 * 2.2e-16 * float(Wabs_[prefix].sum()) / tot_
+    def zero_cell(prefix):
+        return float(W_[prefix].sum()) <= 1e3 * 2.2e-16 * float(Wabs_[prefix].sum()) + 1e-300
+
+    def best(p):
+        return int(np.nanargmax(np.nan_to_num(np.asarray(p, dtype=float), nan=-1.0)))
 
     def pol(req):
         if req['method'] != 'choice' or req['p'] is None:
@@ -377,9 +404,10 @@ def steer(sc, fn):
             out = want.copy()
             for s in range(N):
                 ps = p[want[s]] if np.isfinite(p[want[s]]) else 0.0
-                if negligible(multi[s][:1], ps):
+                if zero_cell(multi[s][:1]):
                     term[s] = 0
-                    out[s] = int(np.nanargmax(p))
+                    offered[s] = ps
+                    out[s] = best(p)
                 else:
                     prob[s] *= ps
             state['step'] = 1
@@ -393,13 +421,14 @@ def steer(sc, fn):
         out = want
         if term[s] is None:
             ps = p[want] if np.isfinite(p[want]) else 0.0
-            if negligible(multi[s][:j + 1], prob[s] * ps):
+            if zero_cell(multi[s][:j + 1]):
                 term[s] = j
-                out = int(np.nanargmax(np.nan_to_num(p)))
+                offered[s] = prob[s] * ps
+                out = best(p)
             else:
                 prob[s] *= ps
         else:
-            out = int(np.nanargmax(np.nan_to_num(p)))
+            out = best(p)
         actual[s, j] = out
         state['s'] += 1
         if state['s'] == N:
@@ -412,7 +441,7 @@ def steer(sc, fn):
         res = teneva.sample(Y, N, seed=sg, unsert=sc['unsert'])
     else:
         res = teneva.sample_square(Y, N, unique=False, seed=sg)
-    return Y, multi, res, prob, term, actual, sg
+    return Y, multi, res, prob, term, offered, actual, sg
 
 
 def execute_steer(sc):
@@ -424,8 +453,10 @@ def execute_steer(sc):
         # the zero tensor defines no distribution: outside the statement
         stats['probe.zero_tensor_skipped'] = 1
         return fin(sc, V, stats, 0, 0, ['zero'])
+    if sc.get('prehistory'):
+        stats['fault.objects_held_another_tensor_in_an_earlier_call'] = 1
     try:
-        Y, multi, res, prob, term, actual, sg = steer(sc, fn)
+        Y, multi, res, prob, term, offered, actual, sg = steer(sc, fn)
     except SimAbort as e:
         return fin(sc, [viol('liveness', '%s: %s' % (fn, e))], stats, 1, 0, [])
     except RuntimeError as e:
@@ -454,27 +485,32 @@ def execute_steer(sc):
     elif not np.array_equal(res, actual):
         s = int(np.where((res != actual).any(axis=1))[0][0])
         V.append(viol('bookkeeping', '%s: sample %d was drawn as %s but returned as %s' % (fn, s, actual[s].tolist(), res[s].tolist())))
-    unsert = sc.get('unsert', 0.0) if fn == 'sample' else 0.0
-    slack = 2 * n[0] * unsert / tot if tot > 0 else 0.0
+    # the documented model: sample() adds the noise floor `unsert` to the first-mode marginal (and only there)
+    u = sc.get('unsert', 0.0) if fn == 'sample' else 0.0
+    w0 = W.reshape(n[0], -1).sum(axis=1)
+    den0 = float(np.maximum(w0 + u, 0).sum())
     worst = 0.0
     nz = 0
     for s, mi in enumerate(multi):
-        truth = float(W[mi]) / tot
+        rnd = 1e4 * 2.2e-16 * float(Wabs[mi[:1]].sum()) / tot
         if term[s] is not None:
             nz += 1
-            # the path met probability zero at step term[s]: the true marginal there must vanish
             j = term[s]
-            marg = float(W[mi[:j + 1]].sum()) / tot
-            if marg > 1e-11 + 4 * slack + 1e4 * 2.2e-16 * float(Wabs[mi[:j + 1]].sum()) / tot:
-                V.append(viol('probability', '%s: multi-index prefix %s has marginal probability %.6e but the sampler offers probability 0 at mode %d'
-                              % (fn, list(mi[:j + 1]), marg, j)))
+            allowed = 1e-12 + 1e4 * 2.2e-16 * float(Wabs[mi[:j + 1]].sum()) / tot
+            if j == 0:
+                allowed += (u / den0) * (1 + 1e-6) if den0 > 0 else 0.0
+            if offered[s] > allowed:
+                V.append(viol('probability', '%s: the multi-index prefix %s has probability zero (marginal %.3e of a total of %.3e) but the sampler offers it with probability %.6e '
+                              '(allowed: %.3e, unsert=%g)' % (fn, list(mi[:j + 1]), float(W[mi[:j + 1]].sum()), tot, offered[s], allowed, u)))
                 break
             continue
+        truth = (max(w0[mi[0]] + u, 0.0) / den0) * (float(W[mi]) / float(w0[mi[0]])) if fn == 'sample' else float(W[mi]) / tot
         err = abs(prob[s] - truth)
         worst = max(worst, err)
-        if err > 1e-12 + 1e-9 * truth + slack * 2 + 1e3 * 2.2e-16 * float(Wabs[mi]) / tot:
-            V.append(viol('probability', '%s: multi-index %s is drawn with probability %.12e (product of the conditionals) but entry/sum = %.12e (shape %s, ranks %s, unsert=%g)'
-                          % (fn, list(mi), prob[s], truth, n, [G.shape[2] for G in Y[:-1]], unsert)))
+        if err > 1e-12 + 1e-9 * truth + 1e3 * 2.2e-16 * float(Wabs[mi]) / tot * max(1.0, tot / den0 if fn == 'sample' and den0 > 0 else 1.0):
+            V.append(viol('probability', '%s: multi-index %s is drawn with probability %.12e (product of the conditionals) but the tensor defines %.12e '
+                          '(entry %.6e of a total of %.6e, shape %s, ranks %s, unsert=%g)'
+                          % (fn, list(mi), prob[s], truth, float(W[mi]), tot, n, [G.shape[2] for G in Y[:-1]], u)))
             break
     key = 'steer_sample_paths' if fn == 'sample' else 'steer_square_paths'
     stats['probe.' + key] = N
@@ -520,6 +556,11 @@ def execute_adversarial(sc):
     fn = sc['fn']
     n = sc['n']
     m = sc['m']
+    # the shape argument as the docstrings allow it: list or ndarray, int or float entries; m as int or float
+    nt = sc.get('ntype', 'list')
+    n_arg = {'list': list(n), 'array': np.array(n), 'farray': np.array(n, dtype=float), 'flist': [float(k) for k in n],
+             'mixed': [float(k) if i % 2 else int(k) for i, k in enumerate(n)]}[nt]
+    m_arg = float(m) if sc.get('mfloat') else m
     seed, sg = make_seed(sc, stats)
     h = []
     runs = 1
@@ -530,7 +571,7 @@ def execute_adversarial(sc):
             # probability n_0*unsert/sum, after which no conditional distribution exists; that is the documented parameter's
             # doing, not part of the statement, so these tensors are sampled with unsert=0
             kw_s = {'unsert': 0.0} if sc['tkind'] in ('sqdiff', 'zeros', 'delta') else {}
-            I = teneva.sample(Y, m, seed=seed, **kw_s)
+            I = teneva.sample(Y, m_arg, seed=seed, **kw_s)
             check_index_array('sample', I, m, n, V)
             h.append(np.asarray(I).tobytes())
         elif fn == 'sample_square':
@@ -575,7 +616,7 @@ def execute_adversarial(sc):
             except ValueError:
                 stats['probe.unique_impossible_rejected'] = 1
         elif fn == 'sample_lhs':
-            I = teneva.sample_lhs(n, m, seed=seed)
+            I = teneva.sample_lhs(n_arg, m_arg, seed=seed)
             if check_index_array('sample_lhs', I, m, n, V):
                 for k, nk in enumerate(n):
                     cnt = np.bincount(np.asarray(I)[:, k], minlength=nk)
@@ -586,14 +627,14 @@ def execute_adversarial(sc):
                 stats['probe.lhs_checked'] = 1
             h.append(np.asarray(I).tobytes())
         elif fn == 'sample_rand':
-            I = teneva.sample_rand(n, m, seed=seed)
+            I = teneva.sample_rand(n_arg, m_arg, seed=seed)
             check_index_array('sample_rand', I, m, n, V)
             h.append(np.asarray(I).tobytes())
         elif fn == 'sample_rand_poi':
             g = gen(sc['tseed'])
             a = g.uniform(-5, 5, len(n))
             b = a + g.uniform(0.1, 3, len(n))
-            X = np.asarray(teneva.sample_rand_poi(list(a), list(b), m, seed=seed))
+            X = np.asarray(teneva.sample_rand_poi(list(a), list(b), m_arg, seed=seed))
             if X.shape != (m, len(n)):
                 V.append(viol('shape', 'sample_rand_poi returned shape %s, expected (%d, %d)' % (X.shape, m, len(n))))
             elif (X < a).any() or (X > b).any():
@@ -601,7 +642,7 @@ def execute_adversarial(sc):
             h.append(X.tobytes())
         elif fn == 'sample_tt':
             r = sc['rtt']
-            I, idx, idx_many = teneva.sample_tt(n, r, seed=seed)
+            I, idx, idx_many = teneva.sample_tt(n_arg, r, seed=seed)
             check_sample_tt(n, r, I, idx, idx_many, V)
             stats['probe.sample_tt_checked'] = 1
             h.append(np.asarray(I).tobytes())
